@@ -83,8 +83,9 @@ def sha1 (msg : Bytes) : Bytes :=
 
 /-! ## Base64 (RFC 4648 §4) -/
 
+/-- `A–Z a–z 0–9 + /` as bytes (written out so that the kernel can evaluate it) -/
 def b64Alphabet : Bytes :=
-  "ABCDEFGHIJKLMNOPQRSTUVWXYZabcdefghijklmnopqrstuvwxyz0123456789+/".toUTF8.toList
+  [65, 66, 67, 68, 69, 70, 71, 72, 73, 74, 75, 76, 77, 78, 79, 80, 81, 82, 83, 84, 85, 86, 87, 88, 89, 90, 97, 98, 99, 100, 101, 102, 103, 104, 105, 106, 107, 108, 109, 110, 111, 112, 113, 114, 115, 116, 117, 118, 119, 120, 121, 122, 48, 49, 50, 51, 52, 53, 54, 55, 56, 57, 43, 47]
 
 def b64Char (n : Nat) : UInt8 := b64Alphabet.getD n 0
 
@@ -137,7 +138,8 @@ def b64Decode : Bytes → Option Bytes
 /-! ## proto.rs: hash_key -/
 
 /-- `WS_GUID`, `proto.rs:227` -/
-def wsGuid : Bytes := "258EAFA5-E914-47DA-95CA-C5AB0DC85B11".toUTF8.toList
+def wsGuid : Bytes :=  -- "258EAFA5-E914-47DA-95CA-C5AB0DC85B11"
+  [50, 53, 56, 69, 65, 70, 65, 53, 45, 69, 57, 49, 52, 45, 52, 55, 68, 65, 45, 57, 53, 67, 65, 45, 67, 53, 65, 66, 48, 68, 67, 56, 53, 66, 49, 49]
 
 /-- `hash_key`, `proto.rs:232`: `base64(sha1(key ++ GUID))` -/
 def hashKey (key : Bytes) : Bytes := b64Encode (sha1 (key ++ wsGuid))
@@ -181,40 +183,46 @@ def containsSub (pat : Bytes) : Bytes → Bool
   | [] => pat.isEmpty
   | b :: t => pat.isPrefixOf (b :: t) || containsSub pat t
 
+/-- the ASCII literals the code compares with, as bytes -/
+def bWebsocket : Bytes := [119, 101, 98, 115, 111, 99, 107, 101, 116]   -- "websocket"
+def bUpgrade : Bytes := [117, 112, 103, 114, 97, 100, 101]             -- "upgrade"
+def b13 : Bytes := [49, 51]
+def b8 : Bytes := [56]
+def b7 : Bytes := [55]
+
 /-- `hdr.to_str().map(|s| s.to_ascii_lowercase().contains(pat)).unwrap_or(false)` -/
-def valueContains (pat : String) (v : Bytes) : Bool :=
-  toStrOk v && containsSub pat.toUTF8.toList (v.map asciiLower)
+def valueContains (pat : Bytes) (v : Bytes) : Bool :=
+  toStrOk v && containsSub pat (v.map asciiLower)
 
 /-- `RequestHead::upgrade()`, `requests/head.rs:109` -/
 def connUpgrade (hs : List (String × Bytes)) : Bool :=
   match getFirst "connection" hs with
-  | some v => valueContains "upgrade" v
+  | some v => valueContains bUpgrade v
   | none => false
 
-def bytesEq (v : Bytes) (s : String) : Bool := v == s.toUTF8.toList
-
-/-- `verify_handshake`, `ws/mod.rs:155` — the decision list in the order coded -/
-def verifyHandshake (req : Req) : Except HandshakeError Unit :=
+/-- `verify_handshake`, `ws/mod.rs:155` — the decision list in the order coded.
+`none` = `Ok(())`, `some e` = `Err(e)`. -/
+def verifyHandshake (req : Req) : Option HandshakeError :=
   -- WebSocket accepts only GET
-  if req.method ≠ "GET" then .error .getMethodRequired
+  if req.method ≠ "GET" then some .getMethodRequired
   else
     -- Check for "UPGRADE" to WebSocket header
     let hasHdr := match getFirst "upgrade" req.headers with
-      | some v => valueContains "websocket" v
+      | some v => valueContains bWebsocket v
       | none => false
-    if !hasHdr then .error .noWebsocketUpgrade
+    if !hasHdr then some .noWebsocketUpgrade
     -- Upgrade connection
-    else if !connUpgrade req.headers then .error .noConnectionUpgrade
+    else if !connUpgrade req.headers then some .noConnectionUpgrade
     -- check supported version
-    else if !containsKey "sec-websocket-version" req.headers then .error .noVersionHeader
+    else if !containsKey "sec-websocket-version" req.headers then some .noVersionHeader
     else
       let supported := match getFirst "sec-websocket-version" req.headers with
-        | some v => bytesEq v "13" || bytesEq v "8" || bytesEq v "7"
+        | some v => v == b13 || v == b8 || v == b7
         | none => false
-      if !supported then .error .unsupportedVersion
+      if !supported then some .unsupportedVersion
       -- check client handshake for validity
-      else if !containsKey "sec-websocket-key" req.headers then .error .badWebsocketKey
-      else .ok ()
+      else if !containsKey "sec-websocket-key" req.headers then some .badWebsocketKey
+      else none
 
 /-- the observable part of the 101 response built by `handshake_response`, `ws/mod.rs:205` -/
 structure Resp where
@@ -227,8 +235,8 @@ structure Resp where
 /-- `handshake`, `ws/mod.rs:149` -/
 def handshake (req : Req) : Except HandshakeError Resp :=
   match verifyHandshake req with
-  | .error e => .error e
-  | .ok () =>
+  | some e => .error e
+  | none =>
     let key := (getFirst "sec-websocket-key" req.headers).getD []   -- `.unwrap()`: present after verify
     .ok ⟨101, "websocket", true, hashKey key⟩
 
